@@ -158,7 +158,7 @@ func dischargeAll(obs []*Obligation, workdir string, tlim int, par int, only str
 			tl, on := tlim, only
 			// relevance slices first: smaller contexts prove most
 			// obligations quickly; the full query is the fallback
-			if !ob.ExpectSat && ob.raw == "" && !ob.ShortLimit {
+			if !ob.ExpectSat && ob.raw == "" && !ob.ShortLimit && os.Getenv("GOVC_NOSLICE") == "" {
 				done := false
 				for lvl := 1; lvl <= 2 && !done; lvl++ {
 					qs := ob.QueryLevel(lvl)
